@@ -412,7 +412,7 @@ def r6_for_with_continue(text, base_line=0):
             raise LostAnchor("R6: unsupported range `%s`" % rng)
         n += 1
         it = "__it%d" % n
-        new_head = "let mut %s: usize = %s;\nwhile %s < %s " % (it, m.group(1), it, m.group(2))
+        new_head = "let mut %s: usize = %s; while %s < %s " % (it, m.group(1), it, m.group(2))
         new_open = "{ let %s = %s; %s = %s + 1;" % (pat, it, it, it)
         log.append("R6 line %d: `for %s in %s` (body has `continue`) -> while-loop with hoisted increment (%s)"
                    % (base_line + toks[kw].line - 1, pat, " ".join(rng.split()), it))
@@ -443,7 +443,7 @@ def r8_step_by(text, base_line=0):
         p, a, b, s = m.groups()
         be = match[bo]
         body = text[toks[bo].end:toks[be].start]
-        new = "let mut %s: usize = %s;\nwhile %s < %s {\n{%s}\n%s = %s + %s;\n}" % (p, a, p, b, body, p, p, s)
+        new = "let mut %s: usize = %s; while %s < %s { {%s} %s = %s + %s; }" % (p, a, p, b, body, p, p, s)
         log.append("R8 line %d: `%s` -> while-loop stepping `%s = %s + %s`" % (base_line + toks[kw].line - 1,
                                                                                 " ".join(head.split()), p, p, s))
         text = text[:toks[kw].start] + new + text[toks[be].end:]
@@ -591,18 +591,27 @@ class Generated:
         self.drops = []
 
     def add(self, text, unit=None, src=None):
-        for k, ln in enumerate(text.split("\n")):
+        k = 0
+        for ln in text.split("\n"):
+            woven = ln.startswith(WOVEN)
+            if woven:
+                ln = ln[len(WOVEN):]
             lab = None
             m = re.search(r"//@ob\s+(\S+)", ln)
             if m:
                 lab = m.group(1)
             self.lines.append(ln)
             self.unit_of.append(unit)
-            self.src_of.append((src[0], src[1] + k) if src else None)
+            self.src_of.append((src[0], src[1] + k) if (src and not woven) else None)
             self.label_of.append(lab)
+            if not woven:
+                k += 1
 
     def text(self):
         return "\n".join(self.lines) + "\n"
+
+
+WOVEN = "\x01"   # marks a generated line that does not correspond to a source line
 
 
 def weave_loops(text, loop_inv, unit_id, expect_loops):
@@ -617,7 +626,12 @@ def weave_loops(text, loop_inv, unit_id, expect_loops):
         if n < 1 or n > len(loops):
             raise LostAnchor("unit %s: invariant for loop %d but only %d loops" % (unit_id, n, len(loops)))
         kw, bo = loops[n - 1]
-        edits.append((toks[bo].start, toks[bo].start, "\n" + inv.rstrip() + "\n"))
+        lines = []
+        for l in inv.rstrip().split("\n"):
+            if l.strip().endswith(",") and "//@ob" not in l:
+                l = l + " //@ob loop%d.invariant" % n
+            lines.append(WOVEN + l)
+        edits.append((toks[bo].start, toks[bo].start, "\n" + "\n".join(lines) + "\n" + WOVEN))
     return _apply_edits(text, edits)
 
 
@@ -728,7 +742,7 @@ def generate(template_path, repo, canary=False, contracts_dir=None, exclude=None
                     if len(hits) < occ:
                         raise LostAnchor("unit %s: insert anchor /%s/ #%d not found" % (unit, rx.pattern, occ))
                     k = hits[occ - 1]
-                    block = [x + " //@ins" for x in ins.split("\n")]
+                    block = [WOVEN + x + " //@ins" for x in ins.split("\n")]
                     if where == "before":
                         tls[k:k] = block
                     else:
